@@ -97,3 +97,22 @@ seed('c19-terminate-plain', 'C19', [(PTC, "mutable std::atomic<bool> terminate_;
 seed('c19-getoh-nolock', 'C19', [(CON, "    USE_DOH;\n    return doh->output_handler_;", "    return getDOH()->output_handler_;")], 'R19b')
 seed('c19-continue-locked', 'C19', [(PRRT, "        nnLock_.lock();\n        Motion *nmotion = nn_->nearest(rmotion);\n        nnLock_.unlock();", "        nnLock_.lock();\n        Motion *nmotion = nn_->nearest(rmotion);\n        if (nmotion == nullptr)\n            continue;\n        nnLock_.unlock();")], 'R19c')
 seed('c19-n-scoped-guard', 'C19', [(PRRT, "            nnLock_.lock();\n            nn_->add(motion);\n            nnLock_.unlock();", "            {\n                std::lock_guard<std::mutex> g(nnLock_);\n                nn_->add(motion);\n            }")], None)
+
+# ---- C04 -------------------------------------------------------------------------------------------------------
+OOC = 'src/ompl/base/src/OptimizationObjective.cpp'
+PG = 'src/ompl/geometric/src/PathGeometric.cpp'
+RRTS = 'src/ompl/geometric/planners/rrt/src/RRTstar.cpp'
+PRMC = 'src/ompl/geometric/planners/prm/src/PRM.cpp'
+AIT = 'src/ompl/geometric/planners/informedtrees/src/AITstar.cpp'
+seed('c04-lt-difference-gt', 'C04', [(PD, "return difference_ < b.difference_;", "return difference_ > b.difference_;")], 'R04a')
+seed('c04-lt-optimized-swapped', 'C04', [(PD, "    if (optimized_ && !b.optimized_)\n        return true;\n    if (!optimized_ && b.optimized_)\n        return false;", "    if (optimized_ && !b.optimized_)\n        return false;\n    if (!optimized_ && b.optimized_)\n        return true;")], 'R04a')
+seed('c04-lt-le', 'C04', [(PD, "return difference_ < b.difference_;", "return difference_ <= b.difference_;")], 'R04a')
+seed('c04-add-nosort', 'C04', [(PD, "                std::sort(solutions_.begin(), solutions_.end());\n", "")], 'R04a')
+seed('c04-better-le', 'C04', [(OOC, "return c1.value() < c2.value();", "return c1.value() <= c2.value();")], 'R04b')
+seed('c04-optimized-negated', 'C04', [(AIT, "solution.setOptimized(objective_, solutionCost_, objective_->isSatisfied(solutionCost_));", "solution.setOptimized(objective_, solutionCost_, !objective_->isSatisfied(solutionCost_));")], 'R04b')
+seed('c04-optimized-other-cost', 'C04', [(AIT, "solution.setOptimized(objective_, solutionCost_, objective_->isSatisfied(solutionCost_));", "solution.setOptimized(objective_, solutionCost_, objective_->isSatisfied(approximateSolutionCost_));")], 'R04b')
+seed('c04-incumbent-swapped', 'C04', [(PRMC, "if (opt_->isCostBetterThan(pathCost, bestCost_))\n                        bestCost_ = pathCost;", "if (opt_->isCostBetterThan(bestCost_, pathCost))\n                        bestCost_ = pathCost;")], 'R04c')
+seed('c04-incumbent-unguarded', 'C04', [(PRMC, "if (opt_->isCostBetterThan(pathCost, bestCost_))\n                        bestCost_ = pathCost;", "bestCost_ = pathCost;")], 'R04c')
+seed('c04-cost-no-terminal', 'C04', [(PG, "    cost = opt->combineCosts(cost, opt->terminalCost(states_.back()));\n", "")], 'R04d')
+seed('c04-cost-from-2', 'C04', [(PG, "    for (std::size_t i = 1; i < states_.size(); ++i)\n        cost = opt->combineCosts", "    for (std::size_t i = 2; i < states_.size(); ++i)\n        cost = opt->combineCosts")], 'R04d')
+seed('c04-n-lt-single-expr', 'C04', [(PD, "    if (!approximate_ && b.approximate_)\n        return true;\n    if (approximate_ && !b.approximate_)\n        return false;", "    if (approximate_ != b.approximate_)\n        return b.approximate_;")], None)
